@@ -33,14 +33,23 @@ LAYOUTS = [
 ]
 
 
-def options_for(oid):
+def options_for(oid, layout=0):
+    """Option value `oid` of the model.  The two values used by the schedules (1, 2) differ in exactly one field;
+    which one depends on the layout: optional_features / internal_convert_user_code / user_requested / recursive."""
     from malt.core import converter as conv
     F = conv.Feature
+    base = conv.ConversionOptions(recursive=True, user_requested=True, optional_features=None)
+    second = [
+        conv.ConversionOptions(recursive=True, user_requested=True, optional_features=F.EQUALITY_OPERATORS),
+        conv.ConversionOptions(recursive=True, user_requested=True, internal_convert_user_code=False, optional_features=None),
+        conv.ConversionOptions(recursive=True, user_requested=False, optional_features=None),
+        conv.ConversionOptions(recursive=False, user_requested=True, optional_features=None),
+    ][layout % 4]
     table = {
-        1: conv.ConversionOptions(recursive=True, user_requested=True, optional_features=None),
-        2: conv.ConversionOptions(recursive=True, user_requested=True, optional_features=F.EQUALITY_OPERATORS),
-        3: conv.ConversionOptions(recursive=False, user_requested=True, optional_features=None),
-        4: conv.ConversionOptions(recursive=True, user_requested=False, optional_features=None),
+        1: base,
+        2: second,
+        3: conv.ConversionOptions(recursive=False, user_requested=False, optional_features=None),
+        4: conv.ConversionOptions(recursive=True, user_requested=True, optional_features=(F.EQUALITY_OPERATORS, F.LISTS)),
     }
     return table[oid]
 
@@ -111,7 +120,7 @@ def replay_schedule(job):
     mods_before = poolmod.generated_module_names()
     reg = poolmod.Registry()
     for oid in (1, 2, 3, 4):
-        reg.set_opt(options_for(oid), oid)
+        reg.set_opt(options_for(oid, job.get('layout', 0)), oid)
     probe = probemod.Probe(reg)
     T = probemod.traced_transpiler(probe)
     sources = poolmod.sources_for(os.path.join(root, 'src'))
